@@ -579,7 +579,7 @@ pub fn run_case(line: &str) -> String {
                     "T" => enc::mk_termination_msg(),
                     "S" => enc::mk_statistics_report_msg(&pph(n(2) as usize)),
                     "U" => enc::mk_peer_up_notification_msg(&pph(n(2) as usize), "10.0.0.1".parse().unwrap(), 11019, 4567, 111, 222, 0, 0, vec![], n(3) == 1),
-                    "D" => enc::mk_peer_down_notification_msg(&pph(n(2) as usize)),
+                    "D" => super::pipe::peer_down_msg(&pph(n(2) as usize), op.get(3).map(|r| r.parse().unwrap())),
                     "R" => enc::mk_raw_route_monitoring_msg(&pph(n(2) as usize), update_bytes(n(3), n(4), op[5], n(6), op[7])),
                     "E" => enc::mk_raw_route_monitoring_msg(&pph(n(2) as usize), eor_bytes(n(3))),
                     _ => enc::mk_raw_route_monitoring_msg(&pph(n(2) as usize), malformed_update()),
